@@ -3,7 +3,7 @@ from itertools import combinations, product
 
 from odata_query.rewrite import AliasRewriter
 
-from vt import refsubst, terms as T
+from vt import sched, refsubst, terms as T
 from vt.decode import decode, encode
 from vt.refprint import to_odata
 from vt.runner import Acc
@@ -129,6 +129,122 @@ def bijection_roundtrip(acc, tree):
                                                 "observed": to_odata(back) if _printable(back) else back})
 
 
+# ---------------------------------------------------------------- qualified path segments
+QUAL_TREES = [T.binop("Eq", T.A(a, "n1.b"), T.Int(1)), T.binop("Eq", T.path("a", "b"), T.A(a, "n2.b")), T.A(T.A(a, "n1.b"), "c"),
+              T.lam(T.A(a, "n2.b"), "Any", "x", T.binop("Eq", T.A(T.I("x"), "n1.b"), T.A(a, "n1.b"))), T.lst(T.A(a, "n1.b"), T.A(a, "n2.b"), T.path("a", "b"))]
+QUAL_KEYS = [T.A(a, "n1.b"), T.A(a, "n2.b"), T.path("a", "b"), a]
+
+
+def qualified_maps():
+    maps = [()]
+    tg = [T.I("X"), T.I("Y"), T.path("c", "d")]
+    for k in QUAL_KEYS:
+        for t_ in tg:
+            maps.append(((k, t_),))
+    for k1, k2 in combinations(QUAL_KEYS, 2):
+        maps.append(((k1, tg[0]), (k2, tg[1])))
+        maps.append(((k2, tg[0]), (k1, tg[1])))
+    return maps
+
+
+# ---------------------------------------------------------------- composition: the output of a rewrite is an AST too
+def compose_check(acc, tree, m1, maps2):
+    acc.count("states")
+    try:
+        mid, _ = rewrite(tree, m1)
+    except Exception:  # noqa  (reported by check())
+        return
+    exp_mid = refsubst.substitute(tree, dict(m1))
+    if mid != exp_mid:
+        return
+    for m2 in maps2:
+        acc.count("executions")
+        acc.count("transitions")
+        exp = refsubst.substitute(exp_mid, dict(m2))
+        try:
+            rw = AliasRewriter({to_odata(k): to_odata(v) for k, v in m2})
+            node = encode(mid)
+            got = decode(rw.visit(node))
+        except Exception as e:  # noqa
+            acc.violation("compose-exception:%s" % type(e).__name__, {"layer": "compose", "tree": to_odata(tree), "tree_term": tree, "map1": [list(x) for x in m1],
+                                                                      "map2": [list(x) for x in m2], "error": repr(e)[:200]})
+            continue
+        if got != exp:
+            acc.violation("compose-substitution", {"layer": "compose", "tree": to_odata(tree), "tree_term": tree, "map1": [list(x) for x in m1], "map2": [list(x) for x in m2],
+                                                   "expected": exp, "observed": got})
+        else:
+            acc.outcome(("compose-ok", exp == exp_mid))
+
+
+def _compose_unit(trees):
+    acc = Acc()
+    maps1 = [m for m in alias_maps(1) if m]
+    maps2 = [(), ((T.I("zz"), T.I("y")),), ((T.I("c"), T.I("a")),), ((b, T.path("c", "d")),)]
+    for tree in trees:
+        for m1 in maps1:
+            compose_check(acc, tree, m1, maps2)
+    return acc
+
+
+# ---------------------------------------------------------------- one shared rewriter, interleaved visits
+class _Hooked(AliasRewriter):
+    """switch point before every node visit (class-level, so that copies of the rewriter made by the library keep it)"""
+    _sched = None
+
+    def visit(self, node):
+        if _Hooked._sched is not None:
+            _Hooked._sched.point()
+        return super().visit(node)
+
+
+SHARED_MAPS = [((T.I("x"), T.I("y")),), ((a, T.I("c")), (T.path("x", "b"), T.I("d")))]
+SHARED_PAIRS = [
+    (T.lam(T.I("items"), "Any", "x", T.binop("And", T.binop("Eq", T.path("x", "p"), T.Int(0)), T.binop("Eq", T.path("x", "b"), a))), T.binop("Eq", T.I("x"), T.Int(1))),
+    (T.lam(a, "All", "x", T.lam(T.path("x", "ys"), "Any", "y", T.binop("Eq", T.path("y", "q"), T.path("x", "b")))), T.binop("Eq", T.path("x", "b"), T.I("x"))),
+    (T.binop("Eq", T.I("x"), a), T.lam(T.I("xs"), "Any", "a", T.binop("Eq", T.path("a", "b"), T.I("x")))),
+]
+
+
+def _shared_unit(unit):
+    (t1, t2), m, bound = unit
+    acc = Acc()
+    exp = [refsubst.substitute(t1, dict(m)), refsubst.substitute(t2, dict(m))]
+
+    def factory():
+        rw = _Hooked({to_odata(k): to_odata(v) for k, v in m})
+        nodes = [encode(t1), encode(t2)]
+
+        def mk(node):
+            def task(s):
+                _Hooked._sched = s
+                return decode(rw.visit(node))
+            return task
+        return [mk(n) for n in nodes]
+
+    def on_exec(x):
+        acc.count("executions")
+        acc.count("states")
+        acc.count("transitions", len(x.points))
+        if x.preemptions_before(len(x.points)):
+            acc.count("nontrivial")
+        for tid in (0, 1):
+            kind, v = x.results[tid]
+            if kind != "ok" or v != exp[tid]:
+                acc.violation("shared-instance:%s" % ("exception" if kind != "ok" else "substitution"),
+                              {"layer": "shared", "trees": [to_odata(t1), to_odata(t2)], "tree_terms": [t1, t2], "map_terms": [list(x_) for x_ in m],
+                               "choices": list(x.choices), "task": tid, "expected": to_odata(exp[tid]),
+                               "observed": to_odata(v) if kind == "ok" and _printable(v) else repr(v)[:200]})
+                return
+        acc.outcome(("shared-ok", len(x.points)))
+
+    try:
+        n = sched.explore(factory, bound, on_exec, max_executions=200000)
+    finally:
+        _Hooked._sched = None
+    acc.sample({"layer": "shared", "trees": [to_odata(t1), to_odata(t2)], "schedules": n, "preemption_bound": bound}, cap=1)
+    return acc
+
+
 _MAPS = {}
 
 
@@ -154,6 +270,19 @@ def run(ctx):
     units += [(2, si, 1 if ctx.quick else 2) for si in range(len(T.shapes(2)))]
     ctx.pmap(_unit, units)
     ctx.layer("trees", max_operator_nodes=2, maps_k1=len(alias_maps(2)), maps_k2=len(alias_maps(1 if ctx.quick else 2)), exhaustive=True)
+    qm = qualified_maps()
+    for tree in QUAL_TREES:
+        check(ctx, tree, qm)
+    ctx.layer("qualified-path-segments", trees=len(QUAL_TREES), maps=len(qm), exhaustive=True,
+              note="paths whose inner segment carries a namespace (a/n1.b, a/n2.b, a/b) as trees and as alias keys: they are three different fields")
+    trees = LEAVES + LIST_LEAVES
+    ctx.pmap(_compose_unit, [trees[i::16] for i in range(16)])
+    ctx.layer("composition", trees=len(trees), first_maps=len(alias_maps(1)) - 1, second_maps=4, exhaustive=True,
+              note="the output of a rewrite (e.g. a path whose owner became a call) is rewritten again, with the empty map and three others")
+    units = [(pair, m, 2 if ctx.quick else 3) for pair in SHARED_PAIRS for m in SHARED_MAPS]
+    ctx.pmap(_shared_unit, units)
+    ctx.layer("shared-instance-interleavings", pairs=len(SHARED_PAIRS), maps=len(SHARED_MAPS), preemption_bound=2 if ctx.quick else 3, exhaustive=True,
+              note="two visits on ONE rewriter instance as greenlets that may switch before every node visit; all schedules within the preemption bound")
 
 
 def _untuple(x):
@@ -161,6 +290,25 @@ def _untuple(x):
 
 
 def replay(ctx, case):
+    if case.get("layer") == "compose":
+        acc = Acc()
+        compose_check(acc, _untuple(case["tree_term"]), tuple(tuple(x) for x in _untuple(case["map1"])), [tuple(tuple(x) for x in _untuple(case["map2"]))])
+        return {"tree": case["tree"], "violations": acc.violations, "ok": not acc.violations}
+    if case.get("layer") == "shared":
+        t1, t2 = _untuple(case["tree_terms"])
+        m = tuple(tuple(x) for x in _untuple(case["map_terms"]))
+        rw = _Hooked({to_odata(k): to_odata(v) for k, v in m})
+        sch = sched.Scheduler()
+        _Hooked._sched = sch
+        try:
+            x = sch.run([lambda s_, n=encode(t1): decode(rw.visit(n)), lambda s_, n=encode(t2): decode(rw.visit(n))], case["choices"])
+        finally:
+            _Hooked._sched = None
+        exp = [refsubst.substitute(t1, dict(m)), refsubst.substitute(t2, dict(m))]
+        obs = [x.results[i] for i in (0, 1)]
+        return {"trees": case["trees"], "choices": case["choices"], "expected": [to_odata(e) for e in exp],
+                "observed": [to_odata(v) if k == "ok" and _printable(v) else repr(v)[:200] for k, v in obs],
+                "ok": all(k == "ok" and v == e for (k, v), e in zip(obs, exp))}
     tree = _untuple(case["tree_term"])
     m = tuple((k, v) for k, v in _untuple(case["map_terms"]))
     exp = refsubst.substitute(tree, dict(m))
